@@ -236,4 +236,62 @@ theorem unique : ∀ (n : Nat) (is : List (Item α τ)), is.length ≤ n → ∀
 theorem G.unique {L L' : Nat} {is : List (Item α τ)} {x y : Tr α τ} (hx : G S L is x) (hy : G S L' is y) : x = y :=
   OPG.unique is.length is (Nat.le_refl _) hx hy
 
+
+/-! ### the tree-level form: well-nested operator trees
+
+`x.WN`: at every binary node of level `k` the left operand has level ≤ k, the right operand level < k (left associativity); under a
+prefix operator of level `p` the operand has level ≤ p; an operand (`leaf`) has level 0 — whatever it is (a bracket group, a call …).
+`G L x.flat x ↔ x.WN ∧ x.lvl ≤ L`, hence a well-nested tree is THE well-nested tree over its items (`WN_unique`). -/
+def Tr.flat : Tr α τ → List (Item α τ)
+  | .leaf a => [.atom a]
+  | .pre t x => .op t :: x.flat
+  | .bin l t r => l.flat ++ .op t :: r.flat
+def Tr.lvl (S : Sig τ) : Tr α τ → Nat
+  | .leaf _ => 0
+  | .pre t _ => (S.preL t).getD 0
+  | .bin _ t _ => (S.binL t).getD 0
+def Tr.WN (S : Sig τ) : Tr α τ → Prop
+  | .leaf _ => True
+  | .pre t x => (S.preL t).isSome ∧ x.WN S ∧ x.lvl S ≤ (S.preL t).getD 0
+  | .bin l t r => (S.binL t).isSome ∧ l.WN S ∧ r.WN S ∧ l.lvl S ≤ (S.binL t).getD 0 ∧ r.lvl S < (S.binL t).getD 0
+
+theorem G.flat_eq {L : Nat} {is : List (Item α τ)} {x : Tr α τ} (h : G S L is x) : x.flat = is := by
+  induction h with
+  | leaf => rfl
+  | up _ _ ih => exact ih
+  | pre _ _ ih => simp [Tr.flat, ih]
+  | bin _ _ _ ih1 ih2 => simp [Tr.flat, ih1, ih2]
+theorem G.lvl_le_level {L : Nat} {is : List (Item α τ)} {x : Tr α τ} (h : G S L is x) : x.lvl S ≤ L := by
+  induction h with
+  | leaf => simp [Tr.lvl]
+  | up _ hl ih => omega
+  | pre hp _ _ => simp [Tr.lvl, hp]
+  | bin hb _ _ _ _ => simp [Tr.lvl, hb]
+/-- what the grammar derives is well nested -/
+theorem G.wn {L : Nat} {is : List (Item α τ)} {x : Tr α τ} (h : G S L is x) : x.WN S := by
+  induction h with
+  | leaf => trivial
+  | up _ _ ih => exact ih
+  | pre hp h ih => exact ⟨by simp [hp], ih, by simpa [hp] using h.lvl_le_level⟩
+  | bin hb h1 h2 ih1 ih2 =>
+    have := S.bin_pos hb
+    exact ⟨by simp [hb], ih1, ih2, by simpa [hb] using h1.lvl_le_level, by have := h2.lvl_le_level; simp [hb]; omega⟩
+/-- and every well-nested tree is derived, at its own level, from its items -/
+theorem G.of_wn : ∀ (x : Tr α τ), x.WN S → G S (x.lvl S) x.flat x
+  | .leaf _, _ => .leaf
+  | .pre t x, h => by
+    obtain ⟨hp, hx, hl⟩ := h
+    obtain ⟨p, hp⟩ := Option.isSome_iff_exists.mp hp
+    simp only [hp, Option.getD_some] at hl
+    simpa [Tr.lvl, Tr.flat, hp] using G.pre hp ((G.of_wn x hx).up hl)
+  | .bin l t r, h => by
+    obtain ⟨hb, hl, hr, h1, h2⟩ := h
+    obtain ⟨k, hb⟩ := Option.isSome_iff_exists.mp hb
+    simp only [hb, Option.getD_some] at h1 h2
+    simpa [Tr.lvl, Tr.flat, hb] using G.bin hb ((G.of_wn l hl).up h1) ((G.of_wn r hr).up (by omega))
+
+/-- **a well-nested tree is THE well-nested tree over its items** (`SR.T.WN_unique` with prefix operators, all levels) -/
+theorem WN_unique {x y : Tr α τ} (hx : x.WN S) (hy : y.WN S) (h : x.flat = y.flat) : x = y :=
+  (G.of_wn x hx).unique (h ▸ G.of_wn y hy)
+
 end OPG
